@@ -234,7 +234,7 @@ theorem construct_loop {cfg : Cfg} (rs : Bool) (cs : List Chr) (hsub : ∀ c ∈
     have nd' := List.nodup_cons.mp nd
     obtain ⟨g1, p1, f1⟩ := constructChr_stage rs h (hsub c (by simp)) hsv (fun e => hnp e c (by simp)) href
     have href' : refOK cfg (runActs (constructChr fixed cfg rs c fs) fs).fs = true := by
-      simp only [refOK, FS.good] at href ⊢; rw [f1 _ rfl]; exact href
+      rw [refOK_frame (f1 _ rfl) (f1 _ rfl)]; exact href
     have hne : ∀ c' ∈ cs, c' ≠ c := fun c' hc' e => nd'.1 (e ▸ hc')
     have hsv' : SavesOK cfg (runActs (constructChr fixed cfg rs c fs) fs).fs :=
       savesOK_frame hsv (f1 _ rfl) (fun _ => f1 _ rfl) (fun _ => f1 _ rfl)
